@@ -8,6 +8,7 @@ mod grow;
 mod local;
 mod ows;
 mod time;
+mod trap;
 
 pub fn lookup(name: &str) -> Option<AreaFn> {
     match name {
@@ -16,6 +17,7 @@ pub fn lookup(name: &str) -> Option<AreaFn> {
         "local" => Some(local::run),
         "beans" => Some(beans::run),
         "grow" => Some(grow::run),
+        "trap" => Some(trap::run),
         _ => None,
     }
 }
